@@ -65,6 +65,16 @@ func (u *Unit) setResult(s *State, instr *ssa.Call, sig *types.Signature, res []
 	if instr == nil {
 		return
 	}
+	// error propagation (C12): remember every error-typed result of a call made by the unit's own code
+	if u.fc != nil && u.fc.Opts["propagate-errors"] != "" && instr.Parent() == u.fn {
+		errT := types.Universe.Lookup("error").Type()
+		for i := 0; i < sig.Results().Len() && i < len(res); i++ {
+			if types.Identical(sig.Results().At(i).Type(), errT) {
+				nm := fmt.Sprintf("%s#%d", shortCallee(calleeName(instr.Common())), u.ordinal(instr))
+				s.errs = append(s.errs, errResult{nm, res[i], instr.Pos()})
+			}
+		}
+	}
 	switch sig.Results().Len() {
 	case 0:
 	case 1:
